@@ -10,6 +10,7 @@ import (
 	"github.com/pkg/errors"
 	"github.com/prometheus/common/model"
 	"github.com/prometheus/prometheus/promql"
+	"github.com/prometheus/prometheus/promql/parser"
 	api_v1 "github.com/prometheus/prometheus/web/api/v1"
 	"math"
 	"net/http"
@@ -69,6 +70,10 @@ func (q *PromQueryRangeController) QueryRange(w http.ResponseWriter, r *http.Req
 			w)
 		return
 	}
+	if err = checkSubqueries(req.Query); err != nil {
+		PromError(400, err.Error(), w)
+		return
+	}
 	rangeQuery, err := q.Api.QueryEngine.NewRangeQuery(q.Storage.SetOidAndDB(internalCtx), nil,
 		req.Query, req.Start, req.End, req.Step)
 	if err != nil {
@@ -88,6 +93,30 @@ func (q *PromQueryRangeController) QueryRange(w http.ResponseWriter, r *http.Req
 		PromError(500, err.Error(), w)
 		return
 	}
+}
+
+// checkSubqueries refuses a subquery of more than 11000 steps, the limit applied to the query itself:
+// the engine allocates one point per inner step and series before any sample limit applies, so
+// `up[100y:1s]` asks for tens of gigabytes at once. Syntax errors are left to the engine.
+func checkSubqueries(query string) error {
+	expr, err := parser.ParseExpr(query)
+	if err != nil {
+		return nil
+	}
+	var res error
+	parser.Inspect(expr, func(node parser.Node, _ []parser.Node) error {
+		if sq, ok := node.(*parser.SubqueryExpr); ok {
+			step := sq.Step
+			if step <= 0 {
+				step = time.Minute // the engine's default subquery interval
+			}
+			if sq.Range/step > 11000 {
+				res = fmt.Errorf("exceeded maximum resolution of 11,000 points per subquery. Try a shorter range or a larger step")
+			}
+		}
+		return nil
+	})
+	return res
 }
 
 func parseQueryRangePropsV2(r *http.Request) (QueryRangeProps, error) {
